@@ -265,7 +265,7 @@ __CPROVER_ensures(math_is_zero(beta) ? y[g_k] == UF_MUL(alpha, g_fold[A_ptr[g_k 
 }
 void h_f_spmv(void) { V al, be; size_t n, xn; ptrdiff_t nnz; const ptrdiff_t *p, *c; const V *v, *x; V *y; f_spmv(al, n, nnz, p, c, v, x, xn, be, y); }
 ''',
-    enforce='f_spmv', mode='inductive', assumptions=A_MOPS, timeout=300,
+    enforce='f_spmv', mode='inductive', assumptions=A_MOPS, timeout=300, replay='vectors',
 )
 
 residual = Unit(
@@ -294,7 +294,7 @@ __CPROVER_ensures(res[g_k] == UF_SUB(g_fk, g_fold[A_ptr[g_k + 1]]))
 }
 void h_f_residual(void) { size_t n, xn; ptrdiff_t nnz; const ptrdiff_t *p, *c; const V *v, *x, *f; V *r; f_residual(f, n, nnz, p, c, v, x, xn, r); }
 ''',
-    enforce='f_residual', mode='inductive', assumptions=A_MOPS, timeout=300,
+    enforce='f_residual', mode='inductive', assumptions=A_MOPS, timeout=300, replay='vectors',
 )
 
 UNITS += [spmv, residual]
@@ -334,7 +334,7 @@ __CPROVER_ensures(__CPROVER_return_value == g_s[x_n])
 }
 void h_f_inner_serial(void) { const V *x, *y; size_t n; f_inner_serial(x, n, y); }
 ''',
-    enforce='f_inner_serial', mode='inductive', timeout=300,
+    enforce='f_inner_serial', mode='inductive', timeout=300, replay='vectors',
     assumptions=A_ASSUME + ['A-def: the ghost Kahan sequences are defined by recurrence and the recurrence is instantiated at the iteration that uses it (KAHAN_STEP)'],
     not_decided=['the parallel (per-thread) variant and std::accumulate of the partial sums', 'that the compensated sum is close to the exact sum (floating point)'],
 )
@@ -378,7 +378,7 @@ __CPROVER_ensures(sum[g_other] == g_other_val)
 }
 void h_f_inner_region(void) { const V *x, *y; V *sum; size_t n; int nt, tid; ptrdiff_t lo, hi; f_inner_region(x, n, y, sum, nt, tid, lo, hi); }
 ''',
-    enforce='f_inner_region', mode='inductive', timeout=300,
+    enforce='f_inner_region', mode='inductive', timeout=300, replay='vectors',
     assumptions=A_ASSUME + ['A-omp-for: the OpenMP runtime gives each thread id in [0,nt) a chunk of the iteration space, the chunks partition [0,n), and the region runs once per thread id',
                             'A-def: the ghost Kahan sequences are defined by recurrence, instantiated at the iteration that uses them'],
     not_decided=['initialisation of the partial sums and std::accumulate over them (serial prologue / epilogue of parallel())'],
